@@ -143,6 +143,13 @@ CLAIMED = {
          "kinds and shapes (incl. empty ones and overwrites with other shapes) against the real library.",
          "Lean kernel + three standard axioms; HDF5 external (the store model is the specification it is tested against); CptTable rows not generated.",
          "6/C17"),
+ "C19": ("Lean 4 proof about hand-written list models of the Perl table scripts (logarithm abstract) + correspondence: the real scripts run with perl on "
+         "generated tables, every output row compared with the model",
+         "ibi_pointwise, ibi_zero_when_equal, ibi_carry_flag_o, ibi_same_grid, boltzmann_invert_pointwise, linop_pointwise, linop_keeps_grid_and_flags, "
+         "smooth_line_interior, smooth_keeps_grid_and_flags, integrate_step, shift_nonbonded_last_zero, combine_pointwise hold for all tables; tied to the "
+         "working tree by executing the scripts of csg/share/scripts/inverse (no translator for Perl: the models are written by hand).",
+         "Lean kernel + three standard axioms; Perl arithmetic/formatting external; table_extrapolate.pl, csg_call, csg_table not covered.",
+         "6/C19"),
 }
 REASONS = {}
 
